@@ -1,16 +1,23 @@
 /-
   C08 — event authorization decides exactly as the spec's rules in every room version.
-  (work in progress: T1 first; the security corollaries and model = spec follow)
+
+  Part 1: T1 (the rule flags per room version are those the spec implies).
+  Part 2: security corollaries, stated outright on the model of `auth_check`, for ALL rule sets
+          (all nine flags arbitrary — in particular every room version), all states and all
+          power-level contents.
+  Part 3: the model decides exactly as `Spec.Auth.authorize` (see `Lemmas/AuthSpec*.lean`).
 -/
-import RumaModel.Model.Auth
+import RumaModel.Lemmas.Auth
 import RumaModel.Spec.AuthRules
 import RumaModel.Generated.C08
 namespace Ruma.Props.C08
-open Ruma Ruma.Auth
+open Ruma Ruma.Auth Ruma.Ident
+
+/-! ## Part 1 — T1 -/
 
 /-- T1. The nine `AuthorizationRules` flags the implementation uses for each room version
-(`RoomVersionId::V<n>.rules().authorization`, extracted on every run) are the ones the
-specification's per-version rule variants imply. -/
+(`RoomVersionId::V<n>.rules().authorization`, extracted from the running code on every run) are the
+ones the specification's per-version rule variants imply. -/
 theorem rules_table_eq_spec :
     Generated.C08.rulesTable = Spec.Auth.versions.map (fun v => (v, Spec.Auth.rulesOf v)) := by
   decide
@@ -20,7 +27,301 @@ theorem ofVersion_eq_spec :
     ∀ v ∈ Spec.Auth.versions, AuthRules.ofVersion? v = some (Spec.Auth.rulesOf v) := by
   decide
 
+/-! ## Part 2 — security corollaries -/
+
+/-- **A banned user cannot join.** In every rule set (all nine flags arbitrary), for every state and
+every power-level content: a `join` event whose target is currently banned is rejected — unless it
+is the room's very first join (its only previous event is the create event), the one case the rules
+allow without looking at the membership. -/
+theorem banned_cannot_join (rules : AuthRules) (ev : Event) (f : Fetch) (target : Str)
+    (hty : ev.type = tMember) (hsk : ev.stateKey = some target)
+    (hm : contentMembership ev.content = .ok mJoin)
+    (hprev : ∀ create, f tCreate [] = some create → ev.prevEvents ≠ [create.eventId])
+    (hban : userMembership f target = .ok mBan) :
+    authCheck rules ev f = false := by
+  rw [authCheck_false]
+  intro h
+  obtain ⟨create, hc, -, h⟩ := member_join_inv hty hsk hm h
+  have hp : (ev.prevEvents == [create.eventId]) = false := by simpa using hprev create hc
+  simp [checkMemberJoin, hp, hban] at h
+
+/-- **A join respects the join rule.** An accepted `join` (other than the room's first) is sent by
+the joining user, who is not banned, and the room's join rule lets them in: `public`; or
+`invite` (where knocking exists: or `knock`) and they are invited or joined already; or `restricted`
+(`knock_restricted`) in a rule set that has it and they are joined/invited already or name, in
+`join_authorised_via_users_server`, a joined user whose power level is at least the invite level.
+No other way in exists, whatever the power levels say. -/
+theorem join_respects_join_rule (rules : AuthRules) (ev : Event) (f : Fetch) (target : Str)
+    (hty : ev.type = tMember) (hsk : ev.stateKey = some target)
+    (hm : contentMembership ev.content = .ok mJoin)
+    (hprev : ∀ create, f tCreate [] = some create → ev.prevEvents ≠ [create.eventId])
+    (h : authCheck rules ev f = true) :
+    ev.sender = target ∧
+    ∃ cur jr, userMembership f target = .ok cur ∧ cur ≠ mBan ∧ joinRule f = .ok jr ∧
+      (jr = jrPublic
+       ∨ ((jr = jrInvite ∨ (rules.knocking = true ∧ jr = jrKnock)) ∧ (cur = mInvite ∨ cur = mJoin))
+       ∨ (((rules.restrictedJoinRule = true ∧ jr = jrRestricted)
+            ∨ (rules.knockRestrictedJoinRule = true ∧ jr = jrKnockRestricted))
+          ∧ ((cur = mJoin ∨ cur = mInvite)
+             ∨ ∃ create creator u ul il, f tCreate [] = some create ∧
+                 createCreator rules create = .ok creator ∧
+                 contentJoinAuthorised ev.content = .ok (some u) ∧
+                 userMembership f u = .ok mJoin ∧
+                 plUserLevel rules (fetchPowerLevels f) u creator = .ok ul ∧
+                 plIntOrDefault rules (fetchPowerLevels f) .invite = .ok il ∧ ul ≥ il))) := by
+  rw [authCheck_true] at h
+  obtain ⟨create, hc, -, h⟩ := member_join_inv hty hsk hm h
+  have hp : (ev.prevEvents == [create.eventId]) = false := by simpa using hprev create hc
+  simp only [checkMemberJoin, hp, Bool.false_and, Bool.false_eq_true, if_false, bind_eq_ok, require_eq_ok] at h
+  obtain ⟨creator, hcr, -, hst, cur, hcur, -, hnb, jr, hjr, h⟩ := h
+  refine ⟨by simpa using hst, cur, jr, hcur, by simpa using hnb, hjr, ?_⟩
+  split at h
+  · rename_i hc1
+    right; left
+    simpa using hc1
+  · split at h
+    · rename_i hc2
+      right; right
+      refine ⟨by simpa using hc2, ?_⟩
+      split at h
+      · rename_i hc3
+        left; simpa using hc3
+      · right
+        simp only [bind_eq_ok] at h
+        obtain ⟨via, hvia, h⟩ := h
+        cases via with
+        | none => simp at h
+        | some u =>
+          simp only [bind_eq_ok, require_eq_ok] at h
+          obtain ⟨um, hum, -, humj, ul, hul, il, hil, hge⟩ := h
+          have : um = mJoin := by simpa using humj
+          subst this
+          exact ⟨create, creator, u, ul, il, hc, hcr, hvia, hum, hul, hil, by simpa using hge⟩
+    · left
+      simpa using h
+
+/-- **Banning needs strictly greater power.** An accepted `ban` comes from a joined sender whose
+power level is at least the ban level and strictly greater than the target's. -/
+theorem ban_needs_strictly_greater_power (rules : AuthRules) (ev : Event) (f : Fetch) (target : Str)
+    (hty : ev.type = tMember) (hsk : ev.stateKey = some target)
+    (hm : contentMembership ev.content = .ok mBan)
+    (h : authCheck rules ev f = true) :
+    userMembership f ev.sender = .ok mJoin ∧
+    ∃ create creator sl tl bl, f tCreate [] = some create ∧ createCreator rules create = .ok creator ∧
+      plUserLevel rules (fetchPowerLevels f) ev.sender creator = .ok sl ∧
+      plUserLevel rules (fetchPowerLevels f) target creator = .ok tl ∧
+      plIntOrDefault rules (fetchPowerLevels f) .ban = .ok bl ∧
+      tl < sl ∧ bl ≤ sl := by
+  rw [authCheck_true] at h
+  obtain ⟨create, hc, -, h⟩ := member_ban_inv hty hsk hm h
+  simp only [checkMemberBan, bind_eq_ok, require_eq_ok] at h
+  obtain ⟨sm, hsm, -, hj, creator, hcr, sl, hsl, bl, hbl, tl, htl, hcond⟩ := h
+  have : sm = mJoin := by simpa using hj
+  subst this
+  simp at hcond
+  exact ⟨hsm, create, creator, sl, tl, bl, hc, hcr, hsl, htl, hbl, hcond.2, hcond.1⟩
+
+/-- **Kicking (and unbanning) needs strictly greater power.** An accepted `leave` aimed at another
+user comes from a joined sender whose power level is at least the kick level and strictly greater
+than the target's — and at least the ban level when the target is banned. -/
+theorem kick_needs_strictly_greater_power (rules : AuthRules) (ev : Event) (f : Fetch) (target : Str)
+    (hty : ev.type = tMember) (hsk : ev.stateKey = some target)
+    (hm : contentMembership ev.content = .ok mLeave) (hother : ev.sender ≠ target)
+    (h : authCheck rules ev f = true) :
+    userMembership f ev.sender = .ok mJoin ∧
+    ∃ create creator sl tl kl bl tm, f tCreate [] = some create ∧ createCreator rules create = .ok creator ∧
+      plUserLevel rules (fetchPowerLevels f) ev.sender creator = .ok sl ∧
+      plUserLevel rules (fetchPowerLevels f) target creator = .ok tl ∧
+      plIntOrDefault rules (fetchPowerLevels f) .kick = .ok kl ∧
+      plIntOrDefault rules (fetchPowerLevels f) .ban = .ok bl ∧
+      userMembership f target = .ok tm ∧
+      tl < sl ∧ kl ≤ sl ∧ (tm = mBan → bl ≤ sl) := by
+  rw [authCheck_true] at h
+  obtain ⟨create, hc, -, h⟩ := member_leave_inv hty hsk hm h
+  have hne : (ev.sender == target) = false := by simpa using hother
+  simp only [checkMemberLeave, hne, Bool.false_eq_true, if_false, bind_eq_ok, require_eq_ok] at h
+  obtain ⟨sm, hsm, -, hj, creator, hcr, tm, htm, sl, hsl, bl, hbl, -, hunban, kl, hkl, tl, htl, hcond⟩ := h
+  have : sm = mJoin := by simpa using hj
+  subst this
+  simp at hcond hunban
+  refine ⟨hsm, create, creator, sl, tl, kl, bl, tm, hc, hcr, hsl, htl, hkl, hbl, htm, hcond.2, hcond.1, ?_⟩
+  intro hb
+  rcases hunban with hn | hl
+  · exact absurd hb hn
+  · exact hl
+
+/-- **The required power level is enforced.** Any accepted event other than `m.room.create`,
+`m.room.member` and (where that special case exists) `m.room.aliases` comes from a joined sender
+whose power level is at least the invite level (`m.room.third_party_invite`) or at least the level
+required for the event's type (all other types), and does not carry another user's id as state key. -/
+theorem required_power_enforced (rules : AuthRules) (ev : Event) (f : Fetch)
+    (h1 : ev.type ≠ tCreate) (h2 : ev.type ≠ tMember)
+    (h3 : ¬ (rules.specialCaseRoomAliases = true ∧ ev.type = tAliases))
+    (h : authCheck rules ev f = true) :
+    userMembership f ev.sender = .ok mJoin ∧
+    ∃ create creator sl, f tCreate [] = some create ∧ createCreator rules create = .ok creator ∧
+      plUserLevel rules (fetchPowerLevels f) ev.sender creator = .ok sl ∧
+      (ev.type = tThirdPartyInvite →
+        ∃ il, plIntOrDefault rules (fetchPowerLevels f) .invite = .ok il ∧ il ≤ sl) ∧
+      (ev.type ≠ tThirdPartyInvite →
+        ∃ req, plEventLevel rules (fetchPowerLevels f) ev.type ev.stateKey.isSome = .ok req ∧ req ≤ sl ∧
+          foreignUserStateKey ev = false) := by
+  rw [authCheck_true] at h
+  obtain ⟨create, creator, sl, hc, hsm, hcr, hsl, h⟩ := authCheckR_general h1 h2 h3 h
+  refine ⟨hsm, create, creator, sl, hc, hcr, hsl, ?_, ?_⟩
+  · intro ht
+    simp only [ht, beq_self_eq_true, if_true, bind_eq_ok, require_eq_ok] at h
+    obtain ⟨il, hil, hge⟩ := h
+    exact ⟨il, hil, by simpa using hge⟩
+  · intro ht
+    have e : (ev.type == tThirdPartyInvite) = false := by simpa using ht
+    simp only [e, Bool.false_eq_true, if_false, bind_eq_ok, require_eq_ok] at h
+    obtain ⟨req, hreq, -, hge, -, hfk, -⟩ := h
+    exact ⟨req, hreq, by simpa using hge, by simpa using hfk⟩
+
+/-- **No self-promotion.** When a power-levels event is accepted over an existing one, every entry
+of its `users` map — the sender's own included — and of `events` (and of `notifications` where that
+is checked) either is unchanged or is at most the sender's current level; and every one of the
+seven integer properties is unchanged or, read through its default, at most the sender's level.
+Holds for all contents and all rule sets. -/
+theorem no_self_promotion (rules : AuthRules) (ev : Event) (f : Fetch) (cur : Event)
+    (hty : ev.type = tPowerLevels) (hcur : fetchPowerLevels f = some cur)
+    (h : authCheck rules ev f = true) :
+    ∃ sl, (∀ creator, plUserLevel rules (some cur) ev.sender creator = .ok sl) ∧
+      (∃ newUsers curUsers, plUsers rules ev.content = .ok newUsers ∧ plUsers rules cur.content = .ok curUsers ∧
+        ∀ u n, newUsers.bind (lastGet · u) = some n → curUsers.bind (lastGet · u) = some n ∨ n ≤ sl) ∧
+      (∃ newEvents curEvents, plEvents rules ev.content = .ok newEvents ∧ plEvents rules cur.content = .ok curEvents ∧
+        ∀ t n, newEvents.bind (lastGet · t) = some n → curEvents.bind (lastGet · t) = some n ∨ n ≤ sl) ∧
+      (rules.limitNotificationsPowerLevels = true →
+        ∃ newN curN, plNotifications rules ev.content = .ok newN ∧ plNotifications rules cur.content = .ok curN ∧
+          ∀ k n, newN.bind (lastGet · k) = some n → curN.bind (lastGet · k) = some n ∨ n ≤ sl) ∧
+      (∀ fld, ∃ c n, getAsInt rules cur.content fld = .ok c ∧ getAsInt rules ev.content fld = .ok n ∧
+        (c = n ∨ n.getD fld.default ≤ sl)) := by
+  rw [authCheck_true] at h
+  have h1 : ev.type ≠ tCreate := by rw [hty]; exact tPowerLevels_ne_tCreate
+  have h2 : ev.type ≠ tMember := by rw [hty]; exact tPowerLevels_ne_tMember
+  have h3 : ¬ (rules.specialCaseRoomAliases = true ∧ ev.type = tAliases) := by
+    rw [hty]; intro hh; exact tPowerLevels_ne_tAliases hh.2
+  obtain ⟨create, creator, sl, hc, hsm, hcr, hsl, h⟩ := authCheckR_general h1 h2 h3 h
+  have e1 : (ev.type == tThirdPartyInvite) = false := by
+    rw [hty]; simpa using tPowerLevels_ne_tThirdPartyInvite
+  have e2 : (ev.type == tPowerLevels) = true := by simp [hty]
+  simp only [e1, e2, Bool.false_eq_true, if_false, if_true, bind_eq_ok, require_eq_ok, hcur] at h
+  obtain ⟨req, -, -, -, -, -, h⟩ := h
+  obtain ⟨newInts, newEvents, newN, newUsers, curEvents, curUsers, i1, i2, i3, i4, i5, i6, i7, i8, i9, i10⟩ :=
+    checkRoomPowerLevels_inv h
+  rw [hcur] at hsl
+  refine ⟨sl, ?_, ⟨newUsers, curUsers, i4, i9, (checkPowerLevelMaps_inv i10).1⟩,
+    ⟨newEvents, curEvents, i2, i6, (checkPowerLevelMaps_inv i7).1⟩, ?_, ?_⟩
+  · intro c
+    simpa [plUserLevel] using hsl
+  · intro hl
+    obtain ⟨curN, j1, j2⟩ := i8 hl
+    exact ⟨newN, curN, i3, j1, (checkPowerLevelMaps_inv j2).1⟩
+  · intro fld
+    obtain ⟨c, hcg, hor⟩ := checkIntFields_inv i5 fld (PLField.mem_all fld)
+    obtain ⟨n, hng, hget⟩ := intFieldsMap_get i1 PLField.all_nodup fld (PLField.mem_all fld)
+    refine ⟨c, n, hcg, hng, ?_⟩
+    rw [hget] at hor
+    rcases hor with h | h
+    · exact Or.inl h
+    · exact Or.inr h.2
+
+/-- **Knocking requires a knock rule.** An accepted `knock` needs a rule set with knocking and a join
+rule that is `knock`, or `knock_restricted` in a rule set that has it. (This is the statement the
+code violated before the F2 repair: in v7–v9 any join rule was accepted.) -/
+theorem knock_requires_knock_rule (rules : AuthRules) (ev : Event) (f : Fetch) (target : Str)
+    (hty : ev.type = tMember) (hsk : ev.stateKey = some target)
+    (hm : contentMembership ev.content = .ok mKnock)
+    (h : authCheck rules ev f = true) :
+    rules.knocking = true ∧ ev.sender = target ∧
+    ∃ jr, joinRule f = .ok jr ∧
+      (jr = jrKnock ∨ (rules.knockRestrictedJoinRule = true ∧ jr = jrKnockRestricted)) := by
+  rw [authCheck_true] at h
+  obtain ⟨-, hk, h⟩ := member_knock_inv hty hsk hm h
+  simp only [checkMemberKnock, bind_eq_ok, require_eq_ok] at h
+  obtain ⟨jr, hjr, -, hcond, -, hst, -⟩ := h
+  exact ⟨hk, by simpa using hst, jr, hjr, by simpa using hcond⟩
+
+/-- The same per room version: in v7–v9 the join rule must be `knock`; in v10–v11 `knock` or
+`knock_restricted`; before v7 no knock is ever accepted. -/
+theorem knock_requires_knock_rule_by_version (v : Nat) (hv : v ∈ Spec.Auth.versions) (ev : Event) (f : Fetch)
+    (target : Str) (hty : ev.type = tMember) (hsk : ev.stateKey = some target)
+    (hm : contentMembership ev.content = .ok mKnock)
+    (h : authCheck (Spec.Auth.rulesOf v) ev f = true) :
+    7 ≤ v ∧ ∃ jr, joinRule f = .ok jr ∧ (jr = jrKnock ∨ (10 ≤ v ∧ jr = jrKnockRestricted)) := by
+  obtain ⟨hk, -, jr, hjr, hor⟩ := knock_requires_knock_rule _ ev f target hty hsk hm h
+  have h7 : 7 ≤ v := by simpa [Spec.Auth.rulesOf, Spec.Auth.hasKnock] using hk
+  refine ⟨h7, jr, hjr, ?_⟩
+  rcases hor with h | ⟨hkr, h⟩
+  · exact Or.inl h
+  · exact Or.inr ⟨by simpa [Spec.Auth.rulesOf, Spec.Auth.hasKnockRestricted] using hkr, h⟩
+
+/-- **Kick / ban need strictly greater power** (both statements together). -/
+theorem kick_ban_need_strictly_greater_power (rules : AuthRules) (ev : Event) (f : Fetch) (target : Str)
+    (hty : ev.type = tMember) (hsk : ev.stateKey = some target)
+    (hm : contentMembership ev.content = .ok mBan ∨
+          (contentMembership ev.content = .ok mLeave ∧ ev.sender ≠ target))
+    (h : authCheck rules ev f = true) :
+    userMembership f ev.sender = .ok mJoin ∧
+    ∃ create creator sl tl, f tCreate [] = some create ∧ createCreator rules create = .ok creator ∧
+      plUserLevel rules (fetchPowerLevels f) ev.sender creator = .ok sl ∧
+      plUserLevel rules (fetchPowerLevels f) target creator = .ok tl ∧ tl < sl := by
+  rcases hm with hm | ⟨hm, hne⟩
+  · obtain ⟨h1, create, creator, sl, tl, bl, hc, hcr, hsl, htl, -, hlt, -⟩ :=
+      ban_needs_strictly_greater_power rules ev f target hty hsk hm h
+    exact ⟨h1, create, creator, sl, tl, hc, hcr, hsl, htl, hlt⟩
+  · obtain ⟨h1, create, creator, sl, tl, kl, bl, tm, hc, hcr, hsl, htl, -, -, -, hlt, -⟩ :=
+      kick_needs_strictly_greater_power rules ev f target hty hsk hm hne h
+    exact ⟨h1, create, creator, sl, tl, hc, hcr, hsl, htl, hlt⟩
+
+/-- **Nobody lowers an equal or higher user.** When a power-levels event is accepted over an existing
+one, every entry of the current `users` map is kept, or belongs to the sender, or is strictly below
+the sender's level. -/
+theorem cannot_lower_equal_or_higher_user (rules : AuthRules) (ev : Event) (f : Fetch) (cur : Event)
+    (hty : ev.type = tPowerLevels) (hcur : fetchPowerLevels f = some cur)
+    (h : authCheck rules ev f = true) :
+    ∃ sl newUsers curUsers, (∀ creator, plUserLevel rules (some cur) ev.sender creator = .ok sl) ∧
+      plUsers rules ev.content = .ok newUsers ∧ plUsers rules cur.content = .ok curUsers ∧
+      ∀ u c, curUsers.bind (lastGet · u) = some c →
+        newUsers.bind (lastGet · u) = some c ∨ u = ev.sender ∨ c < sl := by
+  rw [authCheck_true] at h
+  have h1 : ev.type ≠ tCreate := by rw [hty]; exact tPowerLevels_ne_tCreate
+  have h2 : ev.type ≠ tMember := by rw [hty]; exact tPowerLevels_ne_tMember
+  have h3 : ¬ (rules.specialCaseRoomAliases = true ∧ ev.type = tAliases) := by
+    rw [hty]; intro hh; exact tPowerLevels_ne_tAliases hh.2
+  obtain ⟨create, creator, sl, hc, hsm, hcr, hsl, h⟩ := authCheckR_general h1 h2 h3 h
+  have e1 : (ev.type == tThirdPartyInvite) = false := by
+    rw [hty]; simpa using tPowerLevels_ne_tThirdPartyInvite
+  have e2 : (ev.type == tPowerLevels) = true := by simp [hty]
+  simp only [e1, e2, Bool.false_eq_true, if_false, if_true, bind_eq_ok, require_eq_ok, hcur] at h
+  obtain ⟨req, -, -, -, -, -, h⟩ := h
+  obtain ⟨newInts, newEvents, newN, newUsers, curEvents, curUsers, i1, i2, i3, i4, i5, i6, i7, i8, i9, i10⟩ :=
+    checkRoomPowerLevels_inv h
+  rw [hcur] at hsl
+  refine ⟨sl, newUsers, curUsers, ?_, i4, i9, ?_⟩
+  · intro c
+    simpa [plUserLevel] using hsl
+  · intro u c hu
+    rcases (checkPowerLevelMaps_inv i10).2 u c hu with h | h
+    · exact Or.inl h
+    · right
+      simp at h
+      by_cases hus : u = ev.sender
+      · exact Or.inl hus
+      · exact Or.inr (h hus)
+
 end Ruma.Props.C08
 
 #print axioms Ruma.Props.C08.rules_table_eq_spec
 #print axioms Ruma.Props.C08.ofVersion_eq_spec
+#print axioms Ruma.Props.C08.banned_cannot_join
+#print axioms Ruma.Props.C08.join_respects_join_rule
+#print axioms Ruma.Props.C08.ban_needs_strictly_greater_power
+#print axioms Ruma.Props.C08.kick_needs_strictly_greater_power
+#print axioms Ruma.Props.C08.kick_ban_need_strictly_greater_power
+#print axioms Ruma.Props.C08.required_power_enforced
+#print axioms Ruma.Props.C08.no_self_promotion
+#print axioms Ruma.Props.C08.cannot_lower_equal_or_higher_user
+#print axioms Ruma.Props.C08.knock_requires_knock_rule
+#print axioms Ruma.Props.C08.knock_requires_knock_rule_by_version
